@@ -54,8 +54,6 @@ def make_child(kind: str, k: int, size: int = 60):
 
 def evaluate(kind: str, child, p):
     """The learnt function on a point as the learner hands it out."""
-    if kind == "seq":
-        return float(child._original_function(p[1])) if hasattr(child, "_original_function") else float(child.function(p))
     return float(child.function(p))
 
 
@@ -96,10 +94,33 @@ def child_data(kind, child):
 
 
 # ----------------------------------------------------------------------
+_REG: dict = {}     # id(child) -> Recorder  (not stored on the child: LearnerND pickles its __dict__)
+_SUB: dict = {}     # learner class -> recording subclass
+
+
+def _subclass(cls):
+    if cls not in _SUB:
+        ns = {}
+        for name in Recorder.NAMES:
+            def mk(name):
+                orig = getattr(cls, name)
+
+                def m(self, *a, **k):
+                    rec = _REG.get(id(self))
+                    if rec is None:
+                        return orig(self, *a, **k)
+                    return rec._call(name, orig, a, k)
+                m.__name__ = name
+                return m
+            ns[name] = mk(name)
+        _SUB[cls] = type("Rec" + cls.__name__, (cls,), ns)
+    return _SUB[cls]
+
+
 class Recorder:
-    """Wraps the state-changing methods of ONE child instance (instance
-    attributes shadow the class functions) and logs every call made from
-    outside the child: (call, answer, snapshot of the public state after).
+    """Records every call a wrapper makes on ONE child learner: the child's
+    class is swapped for a subclass whose ask/tell/tell_pending/
+    remove_unfinished log (call, answer, snapshot of the public state after).
     Calls the child makes on itself (ask -> self.tell_pending) are not logged."""
 
     NAMES = ("ask", "tell", "tell_pending", "remove_unfinished")
@@ -109,14 +130,14 @@ class Recorder:
         self.log: list[dict] = []
         self.depth = 0
         self.on_call = on_call          # callback(recorder, entry) after every outside call
+        self.base = type(child)
+        child.__class__ = _subclass(self.base)
         self.snap0 = self.snapshot(full=True)
-        cls = type(child)
-        for name in self.NAMES:
-            setattr(child, name, self._wrap(name, getattr(cls, name)))
+        _REG[id(child)] = self
 
     def unwrap(self):
-        for name in self.NAMES:
-            self.child.__dict__.pop(name, None)
+        _REG.pop(id(self.child), None)
+        self.child.__class__ = self.base
 
     def snapshot(self, full=False):
         c = self.child
@@ -131,38 +152,34 @@ class Recorder:
         if tgt["data"] is None:
             tgt["data"] = child_data(self.kind, self.child)
 
-    def _wrap(self, name, orig):
+    def _call(self, name, orig, args, kwargs):
         child = self.child
-
-        def wrapper(*args, **kwargs):
-            if self.depth > 0:
-                return orig(child, *args, **kwargs)
-            self.depth += 1
-            try:
-                ret = orig(child, *args, **kwargs)
-            finally:
-                self.depth -= 1
-            e = {"name": name, "pts": [], "imps": [], "raw_pts": []}
-            if name == "ask":
-                n = args[0] if args else kwargs["n"]
-                commit = args[1] if len(args) > 1 else kwargs.get("tell_pending", True)
-                e["call"] = ("ask", int(n), bool(commit))
-                e["raw_pts"] = list(ret[0])
-                e["pts"] = [enc_point(self.kind, p) for p in ret[0]]
-                e["imps"] = [float(v) for v in ret[1]]
-            elif name == "tell":
-                e["call"] = ("tell", enc_point(self.kind, args[0]), float(args[1]))
-            elif name == "tell_pending":
-                e["call"] = ("tell_pending", enc_point(self.kind, args[0]))
-            else:
-                e["call"] = ("remove",)
-            e["after"] = self.snapshot()
-            self.log.append(e)
-            if self.on_call:
-                self.on_call(self, e)
-            return ret
-
-        return wrapper
+        if self.depth > 0:
+            return orig(child, *args, **kwargs)
+        self.depth += 1
+        try:
+            ret = orig(child, *args, **kwargs)
+        finally:
+            self.depth -= 1
+        e = {"name": name, "pts": [], "imps": [], "raw_pts": []}
+        if name == "ask":
+            n = args[0] if args else kwargs["n"]
+            commit = args[1] if len(args) > 1 else kwargs.get("tell_pending", True)
+            e["call"] = ("ask", int(n), bool(commit))
+            e["raw_pts"] = list(ret[0])
+            e["pts"] = [enc_point(self.kind, p) for p in ret[0]]
+            e["imps"] = [float(v) for v in ret[1]]
+        elif name == "tell":
+            e["call"] = ("tell", enc_point(self.kind, args[0]), float(args[1]))
+        elif name == "tell_pending":
+            e["call"] = ("tell_pending", enc_point(self.kind, args[0]))
+        else:
+            e["call"] = ("remove",)
+        e["after"] = self.snapshot()
+        self.log.append(e)
+        if self.on_call:
+            self.on_call(self, e)
+        return ret
 
 
 # ----------------------------------------------------------------------
